@@ -109,6 +109,7 @@ class Interp:
         self.trace_calls = []
         self.max_unroll = 64
         self.allocs = []
+        self.class_attr_cache = {}
         self.last_locals = {}  # qualname -> locals at the last return (contracts relate intermediate results to spec terms)
         self.frames = []  # environments of the active calls (contracts may inspect locals at a stop point)
         self.scratch = {}  # per-path storage for contracts (loop specs capture locals here)
@@ -294,6 +295,14 @@ class Interp:
         return obj
 
     # ================================================================== attributes
+    def class_attr(self, ca):
+        """a class attribute is ONE object shared by all instances (evaluated once per path), so that a mutable
+        class-level default that gets mutated is seen by every later use"""
+        key = (ca[0].qualname, id(ca[1]))
+        if key not in self.class_attr_cache:
+            self.class_attr_cache[key] = self.eval(ca[1], self.module_env(ca[0].module))
+        return self.class_attr_cache[key]
+
     def get_attr(self, ov, name, env=None):
         if isinstance(ov, SObj):
             if name in ov.fields:
@@ -312,7 +321,7 @@ class Interp:
                     return fv if kind == "static" else BoundMethod(fv, ov)
                 ca = self.repo.find_class_attr(ci, name)
                 if ca:
-                    return self.eval(ca[1], self.module_env(ca[0].module))
+                    return self.class_attr(ca)
             if ov.handbuilt and self.call_depth > 0:
                 # the object was modelled by a contract with a fixed set of attributes: an attribute outside that
                 # model means "needs contract", not a defect of the code
@@ -339,7 +348,7 @@ class Interp:
                 return self.make_function(r[2], r[0].module, f"{r[0].qualname}.{name}", self.module_env(r[0].module), cls=r[0].qualname)
             ca = self.repo.find_class_attr(ci, name)
             if ca:
-                return self.eval(ca[1], self.module_env(ca[0].module))
+                return self.class_attr(ca)
             raise PyRaise("AttributeError", f"{ov.qualname}.{name}")
         if isinstance(ov, TypeVal):
             if name == "__name__":
